@@ -14,6 +14,7 @@
 package portfolio
 
 import (
+	"bytes"
 	"fmt"
 	"log"
 	"os"
@@ -98,13 +99,19 @@ func (r *returnsRunner) execute(cmd *cobra.Command, args []string) error {
 	}
 	// the period end days must exist in the journal before it is built
 	j.Days(partition.EndDates())
+	// the report is written only if the whole journal could be processed
+	var report bytes.Buffer
 	err = j.Build().Process(
 		journal.ComputePrices(valuation),
 		check.Check(),
 		journal.Valuate(reg, valuation),
 		calculator.ComputeValues(),
 		calculator.ComputeFlows(),
-		performance.Perf(j, partition),
+		performance.Perf(&report, j, partition),
 	)
+	if err != nil {
+		return err
+	}
+	_, err = report.WriteTo(cmd.OutOrStdout())
 	return err
 }
